@@ -19,7 +19,7 @@ var c10ErrExceptions = []ErrException{
 
 func init() {
 	register("C10", []string{".", "./wal", "./record", "./objstorage/...", "./vfs", "./vfs/atomicfs", "./internal/manifest", "./sstable", "./sstable/blob", "./sstable/block", "./valsep", "./internal/compact", "./vfs/atomicfs"}, runC10)
-	propExplain["C10"] = "Decides the ordering clause of C10: every durability point (directory sync after WAL creation, object-provider sync before a table is named by the MANIFEST, file sync before close) dominates — through its nil-error edge — the acknowledgement that depends on it, in every path of the listed functions. Does not decide the crash model or file-system semantics."
+	propExplain["C10"] = "Decides the ordering clause of C10: every durability point (directory sync after WAL creation, object-provider sync before a table is named by the MANIFEST, file sync before close) dominates — through its nil-error edge — the acknowledgement that depends on it, in every path of the listed functions. Does not decide the crash model or file-system semantics. (V2 gate) the object provider advances a tier's directory-sync watermark only through the nil-error edge of that tier's directory Sync."
 }
 
 // durabilityCallees is the callee table of C10.E1: calls whose failure means
